@@ -6,17 +6,13 @@ import json, os, subprocess, sys
 root = os.path.dirname(os.path.dirname(os.path.abspath(__file__)))
 suffix = sys.argv[1]
 FILES = [
-    ("lrpar/src/lib/ctbuilder.rs (the code generation half: gen_parse_function, gen_rule_consts, gen_token_epp, gen_wrappers, gen_user_actions, user_start_ridx and what they call)", "G01"),
-    ("lrpar/src/lib/ctbuilder.rs (the builder half: the setter methods, build, build_to_output_path up to the point where code is generated, header / %grmtools handling, output_file, rebuild_cache)", "G02"),
-    ("lrlex/src/lib/parser.rs (regular expressions and escapes: parse_rule's expression part, unescape and its helpers)", "G03"),
-    ("lrlex/src/lib/parser.rs (declarations, start states, <..> prefixes and target states, rule names, the %grmtools section of .l files)", "G04"),
-    ("lrtable/src/lib/statetable.rs", "G05"),
-    ("lrpar/src/lib/parser.rs", "G06"),
-    ("lrpar/src/lib/cpctplus.rs and lrpar/src/lib/dijkstra.rs", "G07"),
-    ("cfgrammar/src/lib/yacc/grammar.rs (the constructor new_from_ast_with_validity_info: rule / production / token tables, Eco implicit tokens, the start rule, %epp, %avoid_insert, action and type tables - and the accessor methods)", "G08"),
-    ("lrtable/src/lib/pager.rs and lrtable/src/lib/itemset.rs", "G09"),
-    ("cfgrammar/src/lib/yacc/firsts.rs, cfgrammar/src/lib/idxnewtype.rs and cfgrammar/src/lib/mod.rs", "G10"),
-    ("lrlex/src/lib/lexer.rs (Rule::new and the regex builder flags, LRNonStreamingLexerDef::from_rules / set_rule_ids / set_rule_ids_spanned, LRNonStreamingLexer's span and line/column methods - not the lexing loop's push/pop/replace handling)", "G11"),
+    ("lrlex/src/lib/ctbuilder.rs (anything except the lex_flags setup and the rule list of the generated lexerdef(), which earlier rounds used: e.g. CTTokenMapBuilder, the start-state list and targets written into the generated module, module names and paths, rule_ids_map handling, missing-token checks)", "I01"),
+    ("lrpar/src/lib/ctbuilder.rs (paths and names: grammar_in_src_dir / process_file, the derived module name, output_file and how the generated text is assembled, serialisation of grammar and table into the module, gen_rule_consts and gen_token_epp)", "I02"),
+    ("cfgrammar/src/lib/yacc/parser.rs (white space and comments: parse_ws and its callers; %token / %left / %right / %nonassoc / %start / %expect lines; parse_token, parse_name, parse_int)", "I03"),
+    ("lrpar/src/lib/parser.rs (the public API side: RTParserBuilder and its methods, ParseError / ParseRepair / LexParseError and their pp, Node, action_generictree / parse_generictree / parse_map / parse_actions entry points - not the lr / lr_upto loops' span bookkeeping)", "I05"),
+    ("lrlex/src/lib/lexer.rs (LRNonStreamingLexer: span_str, span_lines_str, line_col, iter; DefaultLexeme in lrlex/src/lib/defaults.rs; the error branch of the lexing loop)", "I06"),
+    ("cfgrammar/src/lib/yacc/grammar.rs (accessor methods and lookups: token_precs / token_prec, prod_precedence, rule_name_str / rule_idx / token_idx / token_name, tokens_map, iter_*; firsts()/follows() plumbing) and cfgrammar/src/lib/yacc/firsts.rs / follows.rs accessors", "I07"),
+    ("lrtable/src/lib/statetable.rs (the second pass of StateTable::new that fills core_reduces, state_shifts, reduce_states and final_state; the accessor methods state_actions, state_shifts, core_reduces, reduce_only_state, goto, start_state; encode/decode)", "I08"),
 ]
 props = [json.loads(l) for l in open(os.path.join(root, 'properties.jsonl'))]
 taken = []
